@@ -730,7 +730,7 @@ func (o *respObs) judge() {
 	}
 	r.Distinct(fmt.Sprintf("resp|%s|%s|%s|%s|%s", o.world.rClass, o.world.fill, o.askerCls, o.dc.class, nrec))
 	noteClass("resp_distinct_asker_x_distance_x_fill_classes", fmt.Sprintf("%s|%s|%s", o.askerCls, o.dc.class, o.world.fill))
-	if len(items) >= 3 && o.world.idx%3 == 1 && takeSample("resp", 4) {
+	if len(items) >= 3 && o.world.idx%3 == 1 && takeSample("resp", 3) {
 		r.Sample(map[string]any{"side": "responder", "responder": o.world.rClass, "fill": o.world.fill, "asker": o.askerIP.String(), "path": o.path,
 			"distance_class": o.dc.class, "distances": trimU16(o.dc.wire, 12), "records": len(items), "reply_bytes": len(o.reply), "datagram": big})
 	}
